@@ -18,7 +18,8 @@ REQUIRED = ["DaeVerif.C03.Props." + n for n in (
     "wan_ingress_udp_marks_reverse_tuple", "wan_originated_udp_replies_pass",
     # the rest
     "unparsed_frames_not_routed", "ipv4_noninitial_fragment_passes", "idle_timeouts",
-    "conn_state_layout", "handoff_layout", "lookup_key_layout",
+    "conn_state_layout", "handoff_layout", "lookup_key_layout", "retrieve_reads_the_stored_bytes",
+    "dae_recognition", "group_health_bit",
 )]
 
 GO_ANSWERED = ("connkey", "hoexp")
